@@ -21,6 +21,10 @@ def main(argv=None) -> int:
     seed = args.seed if args.seed is not None else int(os.environ.get("VERIF_SEED", "1") or "1")
     pid = args.pid.upper()
     common.quiet_logging()
+    sys.setrecursionlimit(2500)  # what celpy.Environment() sets anyway; doing it first keeps Hypothesis quiet
+    import warnings
+
+    warnings.filterwarnings("ignore", message=".*recursion limit.*")
     try:
         mod = importlib.import_module(f"checks.{pid.lower()}")
     except Exception:
